@@ -551,6 +551,41 @@ static bool cop_ensure(VmState *vm, const NvmModule *module,
     return true;
 }
 
+/* Serialize an FFI request (u32 import_idx + u16 argc + args). Uses stack_buf when the
+ * request fits, otherwise a heap buffer grown up to COP_MAX_PAYLOAD. Returns the buffer
+ * (to be freed by the caller when it is not stack_buf), or NULL with *bad_arg set to the
+ * argument that could not be serialized. */
+static uint8_t *cop_build_request(uint32_t import_idx, NanoValue *args, int arg_count,
+                                  uint8_t *stack_buf, uint32_t stack_size,
+                                  uint32_t *out_len, int *bad_arg) {
+    uint8_t *buf = stack_buf;
+    uint32_t cap = stack_size;
+    for (;;) {
+        uint32_t pos = 0;
+        uint16_t argc = (uint16_t)arg_count;
+        int failed = -1;
+        memcpy(buf + pos, &import_idx, 4);
+        pos += 4;
+        memcpy(buf + pos, &argc, 2);
+        pos += 2;
+        for (int i = 0; i < arg_count && i < 16; i++) {
+            uint32_t n = cop_serialize_value(&args[i], buf + pos, cap - pos);
+            if (n == 0) { failed = i; break; }
+            pos += n;
+        }
+        if (failed < 0) {
+            *out_len = pos;
+            return buf;
+        }
+        if (buf != stack_buf) free(buf);
+        *bad_arg = failed;
+        if (cap >= COP_MAX_PAYLOAD) return NULL;
+        cap = (cap > COP_MAX_PAYLOAD / 2) ? COP_MAX_PAYLOAD : cap * 2;
+        buf = malloc(cap);
+        if (!buf) return NULL;
+    }
+}
+
 bool vm_ffi_call_cop(VmState *vm, const NvmModule *module, uint32_t import_idx,
                      NanoValue *args, int arg_count,
                      NanoValue *result, VmHeap *heap,
@@ -562,26 +597,22 @@ bool vm_ffi_call_cop(VmState *vm, const NvmModule *module, uint32_t import_idx,
                            result, heap, error_msg, error_msg_size);
     }
 
-    /* Build request payload: u32 import_idx + u16 argc + serialized args */
+    /* Build request payload: u32 import_idx + u16 argc + serialized args.
+     * Small requests use the stack buffer, larger ones a heap buffer. */
     uint8_t payload[8192];
     uint32_t pos = 0;
-    memcpy(payload + pos, &import_idx, 4);
-    pos += 4;
-    uint16_t argc = (uint16_t)arg_count;
-    memcpy(payload + pos, &argc, 2);
-    pos += 2;
-
-    for (int i = 0; i < arg_count && i < 16; i++) {
-        uint32_t n = cop_serialize_value(&args[i], payload + pos, sizeof(payload) - pos);
-        if (n == 0) {
-            snprintf(error_msg, error_msg_size, "COP: failed to serialize arg %d", i);
-            return false;
-        }
-        pos += n;
+    int bad_arg = -1;
+    uint8_t *request = cop_build_request(import_idx, args, arg_count,
+                                         payload, sizeof(payload), &pos, &bad_arg);
+    if (!request) {
+        snprintf(error_msg, error_msg_size, "COP: failed to serialize arg %d", bad_arg);
+        return false;
     }
 
     /* Send request */
-    if (!cop_send(vm->cop_in_fd, COP_MSG_FFI_REQ, payload, pos)) {
+    bool sent = cop_send(vm->cop_in_fd, COP_MSG_FFI_REQ, request, pos);
+    if (request != payload) free(request);
+    if (!sent) {
         /* Pipe broken — cop crashed during our call */
         vm_ffi_cop_stop(vm);
         snprintf(error_msg, error_msg_size,
